@@ -51,6 +51,22 @@ func NewChildEnvironment(parent *Environment) *Environment {
 	}
 }
 
+// Snapshot returns a new environment, without a parent, holding the bindings
+// visible from e at this moment (inner scopes shadow outer ones). Code that
+// runs on another goroutine evaluates in a snapshot, because an Environment
+// must not be read while its owner keeps writing to it.
+func (e *Environment) Snapshot() *Environment {
+	snap := NewEnvironment()
+	for scope := e; scope != nil; scope = scope.parent {
+		for name, b := range scope.vars {
+			if _, shadowed := snap.vars[name]; !shadowed {
+				snap.vars[name] = b
+			}
+		}
+	}
+	return snap
+}
+
 // Define adds a new variable to the current environment as a user-declared
 // binding. For bindings that originate from the runtime (e.g. path or query
 // parameters), use DefineWithSource so diagnostics can report the origin.
